@@ -229,7 +229,11 @@ pub fn drive(args: &[String]) {
             let has_rid = ig.ops.iter().take(2).any(|o| o.k == "IdResult");
             if !has_rid || ig.name.starts_with("Type") || ig.name.contains("Constant") || matches!(op, 54 | 55 | 56 | 248 | 245 | 59 | 1 | 12 | 4433) { continue; }
             let rest: Vec<&LOp> = ig.ops.iter().filter(|o| o.k != "IdResultType" && o.k != "IdResult").collect();
-            if !rest.iter().all(|o| matches!(o.k.as_str(), "IdRef" | "IdScope" | "IdMemorySemantics" | "LiteralInteger")) { continue; }
+            let plain_enum = |k: &str| -> Option<u32> { match g.kinds.get(k) {
+                Some(KindG::ValueEnum { values }) => values.iter().find(|v| v.1.is_empty()).map(|v| v.0),
+                Some(KindG::BitEnum { bits, .. }) => Some(bits.iter().filter(|b| b.1.is_empty()).map(|b| b.0).next().unwrap_or(0)),
+                _ => None } };
+            if !rest.iter().all(|o| matches!(o.k.as_str(), "IdRef" | "IdScope" | "IdMemorySemantics" | "LiteralInteger") || plain_enum(&o.k).is_some()) { continue; }
             let mut prng = Rng::new(op as u64);
             let pre = subset_prelude(&mut prng);
             let npos = rest.iter().filter(|o| o.q != "ZeroOrMore").count() + rest.iter().filter(|o| o.q == "ZeroOrMore").count() * 2;
@@ -242,6 +246,7 @@ pub fn drive(args: &[String]) {
                     let reps = if lo.q == "ZeroOrMore" { 2 } else { 1 };
                     for _ in 0..reps {
                         if lo.k == "LiteralInteger" { ops.push(lit(40 + pos as u32)); }
+                        else if let Some(v) = plain_enum(&lo.k) { ops.push(SOp::one(&lo.k, v)); }
                         else {
                             let idv = match roles[pos] { 0 => 900 + pos as u32, 1 => pre.types[(3 + pos) % pre.types.len()], _ => pre.consts[pos % 3] };
                             ops.push(SOp::one(&lo.k, idv));
